@@ -58,7 +58,7 @@ func genC05(r *Rng, tier string) []*Case {
 		func(in *ComputeIn) { in.T0 = &Vec{Dim: n - 1} },
 		func(in *ComputeIn) { in.ResultDim = ip(n + 2) },
 		func(in *ComputeIn) { in.Freq = ip(0) }, func(in *ComputeIn) { in.Max = ip(-3) }, func(in *ComputeIn) { in.Min = ip(0) },
-		func(in *ComputeIn) { in.A = 0 }, func(in *ComputeIn) { in.A = 1 },
+		func(in *ComputeIn) { in.A = 0; in.Max = ip(9) }, func(in *ComputeIn) { in.A = 1 },
 	}
 	for i := range bad {
 		for j := i; j < len(bad); j++ {
